@@ -531,6 +531,8 @@ class Program:
             if isinstance(r, ClassInfo):
                 m = self.method(r, "__init__")
                 return [m] if m else []
+            if self.is_registry_value(f, fi):
+                return self.registry()
             return []
         if isinstance(f, ast.Attribute):
             # module.func
@@ -562,6 +564,23 @@ class Program:
                     return self.registry()
             return []
         return []
+
+    def is_registry_value(self, e, fi):
+        """e denotes an entry of the query function registry: functions[k], functions.get(k), or a local bound to one"""
+        from .sqlmodel import single_def
+
+        if isinstance(e, ast.Name):
+            if e.id in fi.params:
+                return False
+            d = single_def(fi, e.id)
+            return d is not None and not isinstance(d, ast.Name) and self.is_registry_value(d, fi)
+        if isinstance(e, ast.Subscript) and isinstance(e.value, ast.Name) and e.value.id == "functions":
+            r = self.lookup(fi, "functions")
+            return isinstance(r, tuple) and r[0] == "const"
+        if isinstance(e, ast.Call) and isinstance(e.func, ast.Attribute) and e.func.attr == "get" and isinstance(e.func.value, ast.Name) and e.func.value.id == "functions" and e.args:
+            r = self.lookup(fi, "functions")
+            return isinstance(r, tuple) and r[0] == "const"
+        return False
 
     def registry(self):
         """Every function decorated @q2_function(...) (the query function registry)."""
